@@ -147,13 +147,34 @@ pub struct FilterCase {
     pub idents: u8,
 }
 
-/// quiescence: every subscription message sent so far has been processed
-async fn process_subscriptions(sim: &mut Sim, s: usize, xpub: bool, links: &[Link], got: &mut Vec<Frames>) -> Result<(), String> {
+/// quiescence: every subscription message sent so far has been processed. For XPUB the
+/// application is PARKED in recv while the bytes arrive (the previous recv of this helper
+/// was abandoned pending, as a timeout would leave it): it must be woken by the arrival.
+async fn process_subscriptions(sim: &mut Sim, s: usize, xpub: bool, links: &[Link], got: &mut Vec<Frames>, expected_total: usize) -> Result<(), String> {
+    let parked = if xpub {
+        let r = sim.recv(s);
+        sim.poll(r);
+        Some(r)
+    } else {
+        None
+    };
     for l in links {
         l.to_lib.deliver_all();
     }
     sim.settle().await.map_err(|e| format!("{:?}", e))?;
-    if xpub {
+    if let Some(r) = parked {
+        if sim.done(r) {
+            match sim.take(r) {
+                Some(Out::Recv(Ok(m))) => got.push(m),
+                Some(Out::Recv(Err(e))) => return Err(format!("XPUB recv error: {}", e.text)),
+                _ => {}
+            }
+        } else {
+            sim.cancel(r);
+            if expected_total > got.len() {
+                return Err(format!("a recv that was waiting while {} subscription message(s) arrived was never woken (lost wake-up)", expected_total - got.len()));
+            }
+        }
         let res = simx::recv_until_pending(sim, s, 200).await?;
         for r in res {
             match r {
@@ -241,7 +262,7 @@ pub fn filter_outcome(c: &FilterCase) -> Outcome {
                 match st {
                     Step::Rejoin(j, close_old) => {
                         let j = *j % c.subscribers;
-                        if let Err(e) = process_subscriptions(&mut sim, s, c.xpub, &links, &mut xpub_got).await {
+                        if let Err(e) = process_subscriptions(&mut sim, s, c.xpub, &links, &mut xpub_got, sent_subs.len()).await {
                             fail!(f, format!("C11/{}/processing", who), "{}", e);
                             return f;
                         }
@@ -287,7 +308,7 @@ pub fn filter_outcome(c: &FilterCase) -> Outcome {
                         sent_subs_by[j].push(w);
                     }
                     Step::Publish(k) => {
-                        if let Err(e) = process_subscriptions(&mut sim, s, c.xpub, &links, &mut xpub_got).await {
+                        if let Err(e) = process_subscriptions(&mut sim, s, c.xpub, &links, &mut xpub_got, sent_subs.len()).await {
                             fail!(f, format!("C11/{}/processing", who), "{}", e);
                             return f;
                         }
@@ -308,7 +329,7 @@ pub fn filter_outcome(c: &FilterCase) -> Outcome {
                     }
                 }
             }
-            if let Err(e) = process_subscriptions(&mut sim, s, c.xpub, &links, &mut xpub_got).await {
+            if let Err(e) = process_subscriptions(&mut sim, s, c.xpub, &links, &mut xpub_got, sent_subs.len()).await {
                 fail!(f, format!("C11/{}/processing", who), "{}", e);
                 return f;
             }
